@@ -1,6 +1,7 @@
 SPECIFICATION TSpec
 CONSTANTS N = 3 DrainSkips = FALSE CopyFromBuf = FALSE BufferedReply = FALSE CloseNotHalf = FALSE JoinFirst = FALSE
-INVARIANTS InOrderOnce EOFAfterLast NoFinTwice NothingSwallowed OpenUntilBothDone
+  ForceWhileFlowing = FALSE
+INVARIANTS NeverCutWhileFlowing InOrderOnce EOFAfterLast NoFinTwice NothingSwallowed OpenUntilBothDone
 CONSTRAINT HWM
 POSTCONDITION Accepted
 CHECK_DEADLOCK FALSE
